@@ -881,3 +881,49 @@ Proof.
     subst t. unfold thread_nested. cbn [t_events]. rewrite (Hget e Hin). apply Hn.
   - unfold reg_threads. rewrite nth_error_map, Hk. reflexivity.
 Qed.
+
+(* ================================================================== the string cache *)
+Lemma sc_find_app c p q t :
+  sc_find (c ++ [(q, t)]) p = match sc_find c p with Some x => Some x | None => if q =? p then Some t else None end.
+Proof.
+  induction c as [|[q' t'] c IH]; cbn [app sc_find]; [reflexivity|].
+  destruct (q' =? p); [reflexivity | exact IH].
+Qed.
+
+(* the cache only ever pairs a pointer with the text it designates *)
+Definition sc_ok (txt : N -> str) (c : scache) : Prop := forall p t, sc_find c p = Some t -> t = txt p.
+
+Lemma sc_lookup_ok txt c p :
+  sc_ok txt c -> fst (sc_lookup c p (txt p)) = txt p /\ sc_ok txt (snd (sc_lookup c p (txt p))).
+Proof.
+  intro H. unfold sc_lookup. destruct (sc_find c p) as [t|] eqn:F; cbn [fst snd].
+  - split; [apply H; exact F | exact H].
+  - split; [reflexivity|]. intros p' t'. rewrite sc_find_app.
+    destruct (sc_find c p') as [x|] eqn:F'; [intro E; inversion E; subst; apply H; exact F'|].
+    destruct (N.eqb_spec p p'); [intro E; inversion E; subst; reflexivity | discriminate].
+Qed.
+
+(* for any sequence of lookups — first-seen and cached ones interleaved in any way, the same
+   pointer used for names and categories — the string logged for each is the string its pointer
+   designates (pointers designate a fixed text, as string literals do) *)
+Lemma sc_run_faithful txt l : forall c,
+  sc_ok txt c -> sc_run c (map (fun p => (p, txt p)) l) = map txt l.
+Proof.
+  induction l as [|p l IH]; intros c H; cbn [map sc_run]; [reflexivity|].
+  destruct (sc_lookup_ok txt c p H) as [H1 H2].
+  destruct (sc_lookup c p (txt p)) as [t c'] eqn:E. cbn [fst snd] in *. rewrite H1, (IH c' H2). reflexivity.
+Qed.
+
+Lemma sc_run_faithful_empty txt l : sc_run [] (map (fun p => (p, txt p)) l) = map txt l.
+Proof. apply sc_run_faithful. intros p t F. discriminate. Qed.
+
+(* without the assumption: a known pointer gets the text it had when first seen, and the cache is
+   not changed by a hit *)
+Lemma sc_lookup_hit c p text t : sc_find c p = Some t -> sc_lookup c p text = (t, c).
+Proof. intro F. unfold sc_lookup. rewrite F. reflexivity. Qed.
+
+Lemma sc_lookup_miss c p text :
+  sc_find c p = None -> sc_lookup c p text = (text, c ++ [(p, text)]) /\ sc_find (c ++ [(p, text)]) p = Some text.
+Proof.
+  intro F. unfold sc_lookup. rewrite F. split; [reflexivity|]. rewrite sc_find_app, F, N.eqb_refl. reflexivity.
+Qed.
